@@ -505,6 +505,12 @@ def render_config(entries):
             line = f"{key} = {text}   # some comment"
         elif deco == 'tight':
             line = f"{key}={text}"
+        elif deco == 'spaced':
+            # blanks around every separator (the documented formats are
+            # comma / semicolon separated lists; white space is stripped)
+            t2 = re.sub(r'\s*;\s*', ' ; ', text)
+            t2 = re.sub(r'\s*,\s*', ' , ', t2)
+            line = f"{key}  =  {t2}"
         else:
             line = f"{key} = {text}"
         by[sec].append(line)
@@ -1643,7 +1649,15 @@ def single_specs(quick):
         if quick:          # rst example + first value(s); thorough: all
             gen_vals = gen_vals[:1 if lit is not None else 2]
         for j, v in enumerate(gen_vals):
-            values.append((v, ['', 'comment', 'tight'][j % 3]))
+            values.append((v, ['', 'comment', 'tight', 'spaced'][j % 4]))
+        # formatting variants of list-valued options (blanks around the
+        # separators / none at all): last value, which has the most parts
+        if TABLE[(sec, key)][0] in ('lol', 'nums', 'ints', 'names') and \
+                SINGLE_VALUES.get((sec, key)):
+            last = SINGLE_VALUES[(sec, key)][-1]
+            for deco in ('spaced', 'tight'):
+                if (last, deco) not in values:
+                    values.append((last, deco))
         for text, deco in values:
             fns = (single_function(sec, key, i) if quick else
                    (['forward'] if sec == 'noise_opts' else
@@ -1765,7 +1779,7 @@ def value_strategy(sec, key, prob):
     raise HarnessError(f"no values for {sec}.{key}")
 
 
-DECO = st.sampled_from(['', '', 'comment', 'tight'])
+DECO = st.sampled_from(['', '', 'comment', 'tight', 'spaced'])
 
 
 @st.composite
